@@ -76,11 +76,49 @@ def extract_py_guards():
     if not m:
         raise T1Error('union discriminator type not found')
     disc = m.group(1)
+    # container_len._decode: is `value -= bound_shift` executed before the comparison with array_guard?
+    body = re.search(r'def _decode\(data, pos, endianness\):(.*?)return value, size', src, re.S)
+    if not body or 'value -= bound_shift' not in body.group(1) or 'value > array_guard' not in body.group(1):
+        raise T1Error('container_len._decode: shift subtraction / guard comparison not found')
+    global GUARD_AFTER_SHIFT
+    GUARD_AFTER_SHIFT = body.group(1).index('value -= bound_shift') < body.group(1).index('value > array_guard')
     src = open(os.path.join(REPO, 'prophy/optional.py')).read()
     m = re.search(r'_optional\._optional_type\s*=\s*scalar\.(\w+)', src)
     if not m:
         raise T1Error('optional flag type not found')
     return guard, disc, m.group(1)
+
+
+GUARD_AFTER_SHIFT = None
+
+
+def extract_validation_ranges():
+    """the numeric ranges of prophyc's legality checks: enumerators / discriminators (model.validate_values, the prophy parser),
+    constants (p_constant_def, validate_values strict)"""
+    msrc = open(os.path.join(REPO, 'prophyc/model.py')).read()
+    psrc = open(os.path.join(REPO, 'prophyc/parsers/prophy.py')).read()
+    out = {}
+    m = re.search(r'def check\(what, owner, value, low=(\w+), high=(\w+)', msrc)
+    if not m:
+        raise T1Error('model.validate_values.check: default range not found')
+    out['modelValueLow'], out['modelValueHigh'] = int(m.group(1), 0), int(m.group(2), 0)
+    m = re.search(r'check\("value", "constant " \+ node\.name, node\.value, -\(1 << (\d+)\), \(1 << (\d+)\) - 1', msrc)
+    if not m:
+        raise T1Error('model.validate_values: constant range not found')
+    out['modelConstLowBits'], out['modelConstHighBits'] = int(m.group(1)), int(m.group(2))
+    m = re.search(r'-\(1 << (\d+)\) <= t\[4\] < \(1 << (\d+)\)', psrc)
+    if not m:
+        raise T1Error('p_constant_def: constant range not found')
+    out['parserConstLowBits'], out['parserConstHighBits'] = int(m.group(1)), int(m.group(2))
+    ms = re.findall(r'0 <= t\[\d\] <= (0x[0-9A-Fa-f]+)', psrc)
+    if len(ms) < 2:
+        raise T1Error('parser enumerator / discriminator ranges not found')
+    out['parserValueHighs'] = sorted(set(int(x, 16) for x in ms))
+    m = re.search(r'byte_size >= \(1 << (\d+)\)', msrc)
+    if not m:
+        raise T1Error('model.validate_sizes bound not found')
+    out['modelSizeBits'] = int(m.group(1))
+    return out
 
 
 def extract_prophyc_sizes():
@@ -206,6 +244,9 @@ def pyAlignIsSize : Bool := %s
 /-- `array_guard` of container_len._decode -/
 def pyArrayGuard : Nat := %d
 
+/-- container_len._decode subtracts the bound shift before it compares with the guard -/
+def pyGuardAfterShift : Bool := %s
+
 /-- union `_discriminator_type` and optional `_optional_type` -/
 def pyDiscType : String := %s
 def pyFlagType : String := %s
@@ -213,9 +254,33 @@ def pyFlagType : String := %s
 end Prophy.Generated
 ''' % (',\n'.join('  (%s, %d, %s, %s, %s)' % (lean_str(n), s, lean_str(c), lean_int(lo), lean_int(hi)) for n, s, c, lo, hi in ints),
        ',\n'.join('  (%s, %d, %s)' % (lean_str(n), s, lean_str(c)) for n, s, c in floats),
-       'true' if align_is_size else 'false', guard, lean_str(disc), lean_str(flag))
+       'true' if align_is_size else 'false', guard, 'true' if GUARD_AFTER_SHIFT else 'false', lean_str(disc), lean_str(flag))
     if write_if_changed('PyScalars.lean', text):
         changed.append('PyScalars.lean')
+
+    rng = extract_validation_ranges()
+    text = '''/- GENERATED by harness/t1_extract.py from prophyc/model.py and prophyc/parsers/prophy.py.  Do not edit. -/
+namespace Prophy.Generated
+
+/-- model.validate_values: range of enumerators and discriminators -/
+def modelValueLow : Int := %s
+def modelValueHigh : Int := %s
+/-- model.validate_values (strict): constants lie in [-2^low, 2^high - 1] -/
+def modelConstLowBits : Nat := %d
+def modelConstHighBits : Nat := %d
+/-- p_constant_def: -(1 << low) <= value < (1 << high) -/
+def parserConstLowBits : Nat := %d
+def parserConstHighBits : Nat := %d
+/-- the upper bounds `0 <= value <= ...` of p_enum_member and p_union_member -/
+def parserValueHighs : List Nat := [%s]
+/-- model.validate_sizes: a type of 2^bits bytes or more is refused -/
+def modelSizeBits : Nat := %d
+
+end Prophy.Generated
+''' % (lean_int(rng['modelValueLow']), lean_int(rng['modelValueHigh']), rng['modelConstLowBits'], rng['modelConstHighBits'],
+       rng['parserConstLowBits'], rng['parserConstHighBits'], ', '.join(str(x) for x in rng['parserValueHighs']), rng['modelSizeBits'])
+    if write_if_changed('Ranges.lean', text):
+        changed.append('Ranges.lean')
 
     sizes, dsize, esize, kinds = extract_prophyc_sizes()
     text = '''/- GENERATED by harness/t1_extract.py from prophyc/model.py.  Do not edit. -/
